@@ -974,7 +974,7 @@ func gen(w *bufio.Writer, args map[string]string) {
 
 	reps, permMax, bigN, nRand := 50, 5, 6000, 600
 	if thorough {
-		reps, permMax, bigN, nRand = 500, 7, 10000, 5000
+		reps, permMax, bigN, nRand = 1500, 7, 12000, 15000
 	}
 
 	switch prop {
